@@ -2,7 +2,7 @@
 
 use std::time::Duration;
 
-use super::msg::MAX_MSG_LENGTH;
+use super::msg::{HELLO_MSG_LENGTH, MAX_MSG_LENGTH, PORT_DATA_HEADER_LENGTH};
 
 /// Behavior when ports are exhausted and a connect is requested.
 #[derive(Debug, Clone, Copy, PartialEq, Eq, PartialOrd, Ord, Hash)]
@@ -178,7 +178,14 @@ impl Cfg {
     /// # Panics
     /// Panics if the configuration is invalid.
     pub fn max_frame_length(&self) -> u32 {
-        (MAX_MSG_LENGTH as u32).checked_add(self.chunk_size).expect("maximum frame size exceeds u32::MAX")
+        // Data message followed by a chunk of data.
+        let data =
+            (MAX_MSG_LENGTH as u32).checked_add(self.chunk_size).expect("maximum frame size exceeds u32::MAX");
+
+        // Port data message: header followed by up to chunk_size / 4 ports with port number and id each.
+        let ports = PORT_DATA_HEADER_LENGTH.saturating_add((self.chunk_size / 4).saturating_mul(8));
+
+        data.max(ports).max(HELLO_MSG_LENGTH)
     }
 
     /// Configuration that is balanced between memory usage, latency and throughput.
